@@ -9,7 +9,7 @@
     messages of a successful enqueue. *)
 From Coq Require Import List ZArith NArith Bool.
 From HK Require Import Model.Queue Model.QueueMon Proofs.QueueBase Proofs.QueueInv Proofs.QueueInvStep
-  Proofs.QueueStep Proofs.QueueTrace.
+  Proofs.QueueStep Proofs.QueueTrace Proofs.QueueMonC02.
 Import ListNotations.
 Open Scope Z_scope.
 
@@ -90,6 +90,44 @@ Example C02_witness :
   = [[Queued]; [Leased]; [Queued]; [Leased]; [Dead]; [Queued]].
 Proof. vm_compute. reflexivity. Qed.
 
+(** The executable monitor [P_C02] - the predicate the correspondence check evaluates on every trace
+    observed on the Go stores - holds on every trace of the model, for both flavours, every
+    configuration, every operation list and every oracle, provided no successful enqueue re-uses the
+    id of a message that was stored when it started ([fresh_enqueue]: ids + immutable fields are how
+    the monitor recognises a message, so a replaced message would be judged as a changed one).
+    So the monitor demands nothing the model does not deliver: it cannot raise an alarm on code whose
+    behaviour the model reproduces. *)
+Theorem C02_monitor_holds_on_every_model_trace : forall fl c xs,
+  Forall fresh_enqueue (model_trace fl c xs) -> P_C02 fl c (model_trace fl c xs) = true.
+Proof. exact P_C02_holds_on_model. Qed.
+
+(** per event: conservation, coherence, legal change or documented removal of every stored message,
+    every inserted message is one the operation enqueued, evictions only with a stored enqueue *)
+Theorem C02_monitor_holds_on_every_step : forall fl c s x o s' r,
+  Inv s -> step fl c s x o = (s', r) -> fresh_enqueue (mkEvent x o r (msgs s) (msgs s')) ->
+  c02_event c (mkEvent x o r (msgs s) (msgs s')) = true.
+Proof. exact c02_event_holds. Qed.
+
+(** non-vacuity: a history with a drop_oldest eviction, a DLQ-depth prune, an ack removal and a
+    DLQ delete meets the premise at every event (and the monitor is then true by the theorem) *)
+Example C02_monitor_premise_met :
+  let e i := mkEnq (Some i) 1%N 1%N None None 5%N 0%N 0%N in
+  let o0 := mkOracle [] [] [] [] in
+  let tr := model_trace Mem (mkCfg 2 true 0 1 0 0 1 0)
+         [(Enqueue 100 (e 1%N), o0); (Enqueue 101 (e 2%N), o0);
+          (Enqueue 102 (e 3%N), mkOracle [] [1%N] [] []);                    (* evicts 1 *)
+          (Dequeue 200 None None 2 1000, mkOracle [(2%N, 11%N); (3%N, 12%N)] [] [] []);
+          (LeaseOp 300 (KDead 1%N) (LKnown 11%N false), o0);
+          (LeaseOp 301 (KDead 1%N) (LKnown 12%N false), o0);
+          (Stats 400, mkOracle [] [2%N] [] []);                              (* DLQ depth 1: prunes 2 *)
+          (Enqueue 401 (e 4%N), o0);
+          (Dequeue 500 None None 1 1000, mkOracle [(4%N, 13%N)] [] [] []);
+          (LeaseOp 501 KAck (LKnown 13%N false), o0);                         (* ack removes 4 *)
+          (Manage 600 MDeleteDead [RPlain 3%N], o0)] in
+  (forallb fresh_enqueueb tr, map (fun ev => map m_id (ev_after ev)) tr, P_C02 Mem (mkCfg 2 true 0 1 0 0 1 0) tr)
+  = (true, [[1]; [1; 2]; [2; 3]; [2; 3]; [2; 3]; [2; 3]; [3]; [3; 4]; [3; 4]; [3]; []]%N, true).
+Proof. vm_compute. reflexivity. Qed.
+
 Print Assumptions C02_exactly_once_one_state.
 Print Assumptions C02_every_step_legal.
 Print Assumptions C02_events_chained.
@@ -98,3 +136,5 @@ Print Assumptions C02_origin_of_every_message.
 Print Assumptions C02_fate_of_every_message.
 Print Assumptions C02_leased_removed_only_by_its_ack.
 Print Assumptions C02_error_changes_nothing.
+Print Assumptions C02_monitor_holds_on_every_model_trace.
+Print Assumptions C02_monitor_holds_on_every_step.
